@@ -15,13 +15,13 @@ T = {
          "Held on the executions produced, except the recorded consequences of the known findings F-S3 / F-S5 (capacity taken by an entry that maintenance should have purged), attributed by exact cause."),
  "C04": ("invariant at quiescent points on the hooked snapshot (sum of resident weights) + sampled overshoot bound in un-synced bursts + counters-low drift after concurrent phases (debug, release and unoptimized builds)",
          "Held on the executions produced."),
- "C05": ("ground-truth deadline oracle over histories with boundary-targeted clock advances; bulk histories above one purge batch; iterators held across clock advances",
+ "C05": ("ground-truth deadline oracle over histories with boundary-targeted clock advances; bulk histories above one purge batch; iterators held across clock advances; histories with injected callback panics (operations of unknown outcome keep both outcomes in the oracle)",
          "Held on the executions produced."),
  "C06": ("ground-truth deadline oracle (idle deadline = latest insert / update / successful get) with boundary-targeted clock advances; bulk histories; iterators held across clock advances",
          "Held on the executions produced."),
  "C07": ("ground-truth history oracle (targets invisible for good, everything else retrievable) + concurrent history checker with invalidations as superseding operations + must-live-at-quiescence rule",
          "Held on the executions produced."),
- "C08": ("sanitizers and interpreters over hostile workloads: native debug (panic hook + structural walker), ASan+LSan, Miri; thorough adds TSan, Tree Borrows, valgrind memcheck",
+ "C08": ("sanitizers and interpreters over hostile workloads incl. injected faults (panics in the caller's own callbacks): native debug (panic hook + structural walker), ASan+LSan, Miri; thorough adds TSan, Tree Borrows, valgrind memcheck",
          "No violation observed on the executions produced by three independent observers. A clean sanitizer run is not a proof of memory safety; Miri runs the tagged-pointer code under permissive provenance."),
  "C09": ("bounded-progress monitoring: logical deadlock / livelock detection in a serialized scheduler (no runnable thread, step budget, retry bound), progress guard on the maintenance loops, CPU-idle deadlock criterion, maintenance flag at quiescence",
          "Unbounded liveness cannot be decided by a finite run: restated as bounded progress and decided on logical evidence. Wall-clock watchdogs only make a run inconclusive."),
